@@ -196,6 +196,16 @@ def _short_delegation(ev, uni):
     _resign(ev, "A")
 
 
+def _upper_pubkey(ev, uni):
+    ev["pubkey"] = ev["pubkey"].upper()         # hashed and signed in this spelling
+    _resign(ev, "A")
+
+
+def _blank_pubkey(ev, uni):
+    ev["pubkey"] = ev["pubkey"][:32] + " " + ev["pubkey"][32:]
+    _resign(ev, "A")
+
+
 def _two_delegations(first_bad):
     def m(ev, uni):
         good = C.delegation_tag("B", "A")
@@ -233,6 +243,12 @@ def universes_c03():
         E("fd_sigother", "A", 1, 31, [["delegation", "B"]], mutate=_mut(lambda ev, u: ev.__setitem__("sig", C.sign_hex("A", "11" * 32)))),
         E("fd_badfirst", "A", 1, 32, mutate=_mut(_two_delegations(True))),
         E("fd_badlast", "A", 1, 33, mutate=_mut(_two_delegations(False))),
+        # other spellings of the right bytes: NIP-01 prescribes lowercase hex, bytes.fromhex() also reads upper case and
+        # embedded blanks.  A relay that keeps bytes serves such an event in lowercase - another event than was signed
+        E("f_pkupper", "A", 1, 34, mutate=_mut(_upper_pubkey)),
+        E("f_sigupper", "A", 1, 35, mutate=_mut(lambda ev, u: ev.__setitem__("sig", ev["sig"].upper()))),
+        E("f_sigblank", "A", 1, 36, mutate=_mut(lambda ev, u: ev.__setitem__("sig", ev["sig"][:64] + " " + ev["sig"][64:]))),
+        E("f_pkblank", "A", 1, 37, mutate=_mut(_blank_pubkey)),
     ]
     us["forged"] = forged
     # twins: the same event once authentic and once with a wrong signature (same id).  A relay that remembers what it
